@@ -193,6 +193,28 @@ pub fn generate(out: &mut Out, rng: &Prng, thorough: bool, workdir: &std::path::
     base_sink.finish();
     let st = with.borrow();
     // a DIFF is only meaningful until the runs diverge; report the first one of each scenario
+    // the acceptable-master filter itself: every `AcceptableMasterList` implementation the library ships
+    {
+        let ids: Vec<String> = super::gen_inst::CLOCKS.iter().map(|c| crate::out::hex(c)).collect();
+        let n = if thorough { 4000 } else { 400 };
+        for _ in 0..n {
+            let kind = *rng.pick(&["any", "slice", "arrayvec", "vec", "btree", "hash", "some-vec", "some-slice", "none"]);
+            let mut list: Vec<String> = ids.iter().filter(|_| rng.chance(1, 3)).cloned().collect();
+            if rng.chance(1, 6) {
+                list.extend(list.clone()); // repeated entries
+            }
+            let id = rng.pick(&ids).clone();
+            let lstr = if list.is_empty() { "-".to_string() } else { list.join(",") };
+            let op = format!("ACC {kind} {lstr} {id} #ins:acceptable-master-list");
+            let obs = super::inst::acc_line(&[kind, &lstr, &id]);
+            let want = matches!(kind, "any" | "none") || list.contains(&id);
+            if obs != format!("acc {}", want as u8) {
+                out.oracle("C07", "acceptable-master-list-wrong", &format!("{op} -> {obs}: the {kind} implementation of AcceptableMasterList disagrees with membership"));
+            }
+            out.count("c07.acceptable-list-queries");
+            out.op(&op, &obs);
+        }
+    }
     let mut diverged = false;
     for (op, rest) in &st.1 {
         let parts: Vec<&str> = rest.split('\t').collect();
